@@ -70,6 +70,10 @@ func (core *JApiCore) getIncludedFilePath(keyword *scanner.Lexeme) (string, *jer
 		if info.IsDir() {
 			return "", incorrectParameter(keyword, path, "is a directory")
 		}
+		if !info.Mode().IsRegular() {
+			// A named pipe would be waited for forever, a device read without end.
+			return "", incorrectParameter(keyword, path, "is not a regular file")
+		}
 		return absolutePath, nil
 	}
 
